@@ -148,6 +148,17 @@ def family(pid, tier, seed):
         for s_ in ("( 300 ( 7", "( 7 ( 300", "( 300", "( 7", "( 128 ( 127 ( 300 ( 9"):
             GG.add_input(g, s_, seen)
         gs.append(g)
+        # ... and the same after MANY tokens (18 and 40), with lookaheads on both sides of that length and unlimited ones; the failure
+        # is a conversion error / a "!" group, not an unexpected token
+        for gid, nlead in (("m4", 17), ("m5", 39)):
+            lead = [GG.lit("a")] * nlead
+            g = mk_grammar(gid, [("P0", {"op": "alt", "kids": [pn("A", "P1"), pn("B", "P2")]}, [F("A", "node", "P1"), F("B", "node", "P2")]),
+                                 ("P1", seq(*(lead + [cap("N", "int8", GG.ref("Int"))])), [F("N", "int8")]),
+                                 ("P2", seq(*(lead + [cap("W", "string", GG.ref("Int"))])), [F("W", "string")])], ks=(1, 16, 17, 20, 45, 99999, -1, -4))
+            seen = set()
+            for s_ in (" ".join(["a"] * nlead) + " 300", " ".join(["a"] * nlead) + " 7", " ".join(["a"] * (nlead - 1)) + " 300"):
+                GG.add_input(g, s_, seen)
+            gs.append(g)
         for gid, first in (("m0", seq(GG.ref("Comment"), node("N"))), ("m1", seq(GG.ref("Comment"), GG.ref("Comment"), node("N")))):
             g = mk_grammar(gid, [("P0", seq(cap("H", "string", GG.ref("Ident")), {"op": "grp", "mode": "once", "kid": {"op": "alt", "kids": [first, node("N")]}}), [F("H", "string"), F("N", "node", "P1")]),
                                  ("P1", seq(cap("C", "string", GG.ref("Comment")), cap("V", "string", GG.ref("Ident"))), [F("C", "string"), F("V", "string")])],
